@@ -67,6 +67,8 @@ ASSUMPTIONS = [
     "inner = outer * (1 + d), reject for d = 0 and d >= 1e-9, accept for d <= -1e-3; chain length: reject <= -1e-6, accept "
     ">= 1e-3",
     "'accept' cases are built like the test-suite's own valid calls (perpendicular frames, positive radii and lengths)",
+    "clamp/link grids sit near the origin or 1000 units away (the documented matching tolerance TOL is absolute); a junction "
+    "moved by GridBase.update by 0.02..0.2 leaves its former position without a vertex (nearest vertex >= 0.02 away)",
 ]
 
 # --------------------------------------------------------------------------------------------------
@@ -711,6 +713,7 @@ QUADS = [[0, 1, 4, 3], [1, 2, 5, 4], [3, 4, 7, 6], [4, 5, 8, 7]]
 def make_optimizer(case):
     if case["grid"] == "quad":
         o, e1, e2, e3 = frame_of(case["frame"])
+        o = o + case.get("far", 0.0)
         pos = [(o + p[0] * e1 + p[1] * e2).tolist() for p in QUAD_POS]
 
         def build():
@@ -720,8 +723,9 @@ def make_optimizer(case):
 
         def build():
             mesh = cb.Mesh()
+            far = case.get("far", 0.0)
             for x in (0, 1):
-                box = cb.Box([x, 0, 0], [x + 1, 1, 1])
+                box = cb.Box([far + x, far, far], [far + x + 1, far + 1, far + 1])
                 for a in range(3):
                     box.chop(a, count=2)
                 mesh.add(box)
@@ -737,7 +741,10 @@ def clamp_case(draw):
     return {"frame": draw(frame_st()), "grid": draw(st.sampled_from(["quad", "hex"])), "v": draw(st.integers(0, 11)),
             "w": draw(st.integers(0, 11)), "dir": draw(_unit3), "off": draw(pick((1, logmag(1e-4, 0.3)), (1, st.just(0.0)))),
             "off2": draw(pick((2, st.just(0.0)), (1, logmag(1e-4, 0.3)))),
-            "second": draw(st.sampled_from(["free", "free", "line", "plane"]))}
+            "second": draw(st.sampled_from(["free", "free", "line", "plane"])),
+            "move": draw(st.sampled_from(["direct", None, "link", None, "direct", "link"])), "amount": draw(st.floats(0.02, 0.2)),
+            # the model sits near the origin or 1000 units away from it (matching tolerances are absolute)
+            "far": draw(st.sampled_from([1000.0, 0.0, 0.0, 1000.0]))}
 
 
 def _dir(case) -> np.ndarray:
@@ -768,8 +775,51 @@ def check_second_clamp(case, ctx: Ctx) -> None:
     ctx.nt(True)
 
 
-def check_clamp_no_vertex(case, ctx: Ctx) -> None:
+def _move_dir(case) -> np.ndarray:
+    d = _dir(case)
+    if case["grid"] == "quad":  # stay in the sketch plane
+        _, e1, e2, _ = frame_of(case["frame"])
+        d = d[0] * e1 + (d[1] if abs(d[1]) > 0.1 else 0.5) * e2
+        d = d / np.linalg.norm(d)
+    return d
+
+
+def check_clamp_after_move(case, ctx: Ctx) -> None:
+    """a junction is moved through GridBase.update (what every optimisation step does), directly or as the follower of a
+    link: a clamp at the vacated position matches no vertex any more, a clamp at the current position does"""
     opt, P = make_optimizer(case)
+    v, w = case["v"] % len(P), case["w"] % len(P)
+    if case["move"] == "link" and w == v:
+        w = (v + 1) % len(P)
+    step = case["amount"] * _move_dir(case)
+    facts = {"grid": case["grid"], "move": case["move"], "amount": case["amount"]}
+    if case["move"] == "link":
+        def prepare():
+            opt.add_clamp(FreeClamp(P[v]))
+            opt.add_link(TranslationLink(P[v], P[w]))
+            opt.grid.update(v, P[v] + step)
+        moved = w
+    else:
+        def prepare():
+            opt.grid.update(v, P[v] + step)
+        moved = v
+    fixture("add_clamp(after move)", prepare, **facts)
+    now = np.array(opt.grid.points[moved], dtype=float)
+    if np.linalg.norm(now - (P[moved] + step)) > 1e-9:
+        raise Violation("update-did-not-move", f"GridBase.update left junction {moved} at {now.tolist()}", site="GridBase.update",
+                        klass="moved", **facts)
+    vacated = P[moved].copy()
+    judge(ctx, "add_clamp", "clamp-at-vacated-position", "reject", lambda: opt.add_clamp(FreeClamp(vacated)), vertex=moved, **facts)
+    judge(ctx, "add_clamp", "clamp-at-current-position", "accept", lambda: opt.add_clamp(FreeClamp(now)), vertex=moved, **facts)
+    ctx.label("moved:" + case["move"])
+    ctx.nt(True)
+
+
+def check_clamp_no_vertex(case, ctx: Ctx) -> None:
+    if case.get("move"):
+        return check_clamp_after_move(case, ctx)
+    opt, P = make_optimizer(case)
+    ctx.label(f"origin-distance={case.get('far', 0.0):g}")
     v = case["v"] % len(P)
     off = case["off"]
     pos = P[v] + off * _dir(case)
@@ -780,6 +830,7 @@ def check_clamp_no_vertex(case, ctx: Ctx) -> None:
 
 def check_link_no_vertex(case, ctx: Ctx) -> None:
     opt, P = make_optimizer(case)
+    ctx.label(f"origin-distance={case.get('far', 0.0):g}")
     v, w = case["v"] % len(P), case["w"] % len(P)
     off_l, off_f = case["off"], case["off2"]
     d = _dir(case)
@@ -949,7 +1000,9 @@ CELLS = [
          "end sketch and EVERY mid sketch have the start sketch's number of faces", fixed_cases=_FIXED_SKETCH),
     # clamps and links
     Cell("C20/clamp/second", clamp_case(), check_second_clamp, 60, 2500, "a second clamp (free / line / plane) on a clamped vertex is rejected"),
-    Cell("C20/clamp/no-vertex", clamp_case(), check_clamp_no_vertex, 60, 2500, "a clamp >= 1e-4 away from every vertex is rejected, on a vertex accepted"),
+    Cell("C20/clamp/no-vertex", clamp_case(), check_clamp_no_vertex, 90, 3500,
+         "a clamp >= 1e-4 away from every vertex is rejected, on a vertex accepted; after GridBase.update moved a junction "
+         "(directly or as a link's follower) a clamp at the vacated position is rejected, at the current one accepted"),
     Cell("C20/link/no-vertex", clamp_case(), check_link_no_vertex, 60, 2500, "a link whose leader or follower is >= 1e-4 away from every vertex is rejected"),
     # life cycle
     Cell("C20/lifecycle", lifecycle_case(), check_lifecycle, 100, 4000,
